@@ -58,8 +58,13 @@ fn codec_string(rng: &mut Rng, case: u64) -> String {
         let c = (case - 128) as u8 as char;
         return format!("{c}{c}x{c}");
     }
-    match rng.below(12) {
+    match rng.below(14) {
         0 => String::new(),
+        12 | 13 => {
+            // already slug-shaped text: lowercase letters, digits and hyphen runs at every position
+            let n = 1 + rng.below(7);
+            (0..n).map(|_| *rng.pick(&["a", "b7", "-", "--", "---", "0", "xyz", "2024", "q-r"])).collect::<Vec<_>>().join("")
+        }
         1 => gen_string(rng),
         2 => {
             let n = rng.below(10);
